@@ -57,7 +57,8 @@ dst = os.path.join(ROOT, 'seeded', a.id)
 os.makedirs(dst, exist_ok=True)
 for f in ('patch.diff', 'demo.py', 'notes.md'):
     if os.path.exists(os.path.join(a.src, f)):
-        shutil.copy(os.path.join(a.src, f), os.path.join(dst, f))
+        if os.path.abspath(a.src) != os.path.abspath(dst):
+            shutil.copy(os.path.join(a.src, f), os.path.join(dst, f))
 if os.path.exists(os.path.join(dst, 'meta.json')):
     old = json.load(open(os.path.join(dst, 'meta.json')))
     meta.setdefault('history', old.get('history', []))
